@@ -1,13 +1,16 @@
 import json, os, re, subprocess, sys, glob
-for rp in sorted(glob.glob('/tmp/seed7_reports/C*.json')):
+for rp in sorted(glob.glob('/tmp/seed9_reports/C*.json')):
     rep = json.load(open(rp)); pid = rep['property']
-    log = open(f'/tmp/try7/{pid}.log').read()
+    log = open(f'/tmp/try9/{pid}.txt').read()
+    if '== ./check' not in log or not (any(l.startswith(f'{pid} tier=') for l in log.splitlines())):
+        print(pid, 'try not finished'); continue
+    if os.path.exists(f"/verif/seeded/{pid}-{rep['short_name']}/meta.json"): continue
     if not any(l.startswith(f'{pid} tier=') for l in log.splitlines()):
-        print(pid, 'not finished'); continue
+        print(pid, 'check crashed (exit 2): stored as MISSED')
     name = f"{pid}-{rep['short_name']}"
     d = f"/verif/seeded/{name}"
     os.makedirs(d, exist_ok=True)
-    wt = f"/tmp/seed7_{pid}"
+    wt = f"/tmp/seed9_{pid}"
     diff = subprocess.run(["git", "-C", wt, "diff", "--", "src"], capture_output=True, text=True).stdout
     open(f"{d}/patch.diff", "w").write(diff)
     open(f"{d}/demo.py", "w").write(open(f"{wt}/seeded_demo.py").read())
@@ -19,7 +22,7 @@ for rp in sorted(glob.glob('/tmp/seed7_reports/C*.json')):
     caught = bool(last and "exit 1" in last[-1])
     nf = bool(viol and "no-failing-input-found" in viol[0])
     first = "caught" if caught and not nf else ("tie broken, no input" if caught else "MISSED")
-    meta = {"property": pid, "round": 7, "summary": rep["summary"], "needs_to_manifest": rep["needs_to_manifest"],
+    meta = {"property": pid, "round": 9, "summary": rep["summary"], "needs_to_manifest": rep["needs_to_manifest"],
             "files_changed": rep["files_changed"], "commands_run": rep["commands_run"],
             "verified_by_coordinator": {"tests_pass_with_change": "passed" in tests and "failed" not in tests, "tests_output": tests,
                                         "demo_fails_with_change": dw == "1", "demo_passes_without_change": dwo == "0",
